@@ -17,7 +17,7 @@ CHECKS = {
     category="proof",
     text="Proved in Coq END TO END for the affine fragment: for every model whose constraints are affine after the pre-processing rewrites, `compile m = Ok L` implies that L has exactly the source's feasible set "
          "(C01_projection_affine, and in the projection form of the property C01_projection_affine_statement_form) - through every stage of compile: domain tightening, flatten/simplify, the logic-constraint test, Exp::linearize, "
-         "the main loop with its step bound, row-name de-duplication, variable sorting, coefficient extraction, published domains; premises (record affine_model) with a non-vacuity example. "
+         "the main loop with its step bound, row-name de-duplication, variable sorting, coefficient extraction, published domains; premises (record affine_model, decided by the boolean affine_modelb with a soundness lemma and evaluated on every tied model: about 40 % of the generated models lie in the fragment) with a non-vacuity example. "
          "PARTIAL for models with non-affine constraints: proved for all inputs are every lowering arm's row pattern in both directions "
          "(big-M abs, selector min/max, dominated operands, reified and/or/xor/implies/iff, witnesses), soundness of every bound the rewrites read, "
          "value preservation of flatten/simplify, and the frame property of all linearizer actions; the full projection theorem for them is stated "
